@@ -154,6 +154,7 @@ func runC08(c *Ctx, phase string) {
 	c.Floor("pairs_later_valid", int64(len(u.Active)))
 	c.Floor("pairs_only_valid", int64(len(u.Active)))
 	c.Floor("ids_with_cross_contexts", int64(len(u.Active)))
+	c.Floor("long_list_substitutions", 300)
 	c.Floor("result_true", 2000)
 	c.Floor("result_false", 2000)
 
@@ -257,6 +258,18 @@ func runC08(c *Ctx, phase string) {
 							judgeC08(c, cs)
 							c.Distinct(gen.HashStr(id, pair, exc, pt, fmt.Sprint(swap)))
 						}
+					}
+				}
+				// the spelling as one entry of a long allowed list, and as the expression against a long list
+				if exc == "" && (len(u.TablePos(id)) > 0 || idx%8 == 0) {
+					long := make([]ev.QS, 0, 302)
+					for i := 0; len(long) < 300; i++ {
+						long = append(long, ev.QS(u.ActPlain[(i*11+len(id))%len(u.ActPlain)]))
+					}
+					for _, p := range partnerTerms[:imin(2, len(partnerTerms))] {
+						judgeC08(c, C08Case{ID: id, Pair: pair, Expr: ev.QS(p), Allowed: append(append([]ev.QS{}, long...), hole)})
+						judgeC08(c, C08Case{ID: id, Pair: pair, Expr: hole, Allowed: append(append([]ev.QS{}, long...), ev.QS(p))})
+						c.Inc("long_list_substitutions")
 					}
 				}
 				// embedded in compound expressions, complete truth table over the other terms + the hole
